@@ -663,6 +663,27 @@ def validate(tier, workdir, seed):
     runs, errs = 0, []
     counts, rep, bdig = strs.table()
     probes = ["16384", "15", "٣٢٧٦٨", "²", "½", " 16384", "+15", "1_6", "x", "00015", "33554432", "13", "26", "30", "-1"]
+    fprobes = ["16384.5", "20.", ".5", "1_0.2_5", " -3.75 ", "1._5", "_1.5", "1.5_", "..", ".", "+.", "٣.٥", "1.2.3", "1 .5"]
+    for p in fprobes:
+        chars = [strs.SymChar(strs.classify(ch), __import__("unicodedata").decimal(ch, 0) if strs.classify(ch) in (strs.A, strs.B) else 0) for ch in p]
+        try:
+            m = strs.SymStr(chars, "s").__symfloat__()
+            m = (m.n, m.d)
+        except ValueError:
+            m = None
+        try:
+            from fractions import Fraction
+            real = Fraction(float(p))
+            real = (real.numerator, real.denominator)
+            if m is not None:
+                g = Fraction(m[0], m[1])
+                m = (g.numerator, g.denominator) if float(g) == float(p) else m
+                real = (g.numerator, g.denominator) if float(g) == float(p) else real
+        except ValueError:
+            real = None
+        runs += 1
+        if (m is None) != (real is None) or (m is not None and m != real):
+            errs.append("float() model disagrees with the interpreter on %r: %r vs %r" % (p, m, real))
     for p in probes:
         # class model of int()/isnumeric agrees with the interpreter on the probe
         vals = {}
@@ -690,7 +711,7 @@ def validate(tier, workdir, seed):
     import re as _re
     from symx import rex
     from symx.core import Unsupported as _Uns
-    alpha = [rep[k] for k in range(9)] + ["7", bdig[3]]
+    alpha = [rep[k] for k in range(10)] + ["7", bdig[3]]
     pats = [r"^\s*([+-]?[0-9]+)\s*", r"[0-9]+$", r"\s*(\d+)\s*\Z", r"(?:1[4-9]|2[0-5])", r"([0-9]+)(_[0-9]+)*", r"[^0-9\s]+?(\d)"]
     for pat in pats:
         for n in (1, 2) + ((3,) if tier != "quick" else ()):
